@@ -120,8 +120,7 @@ func (p *PKCS7PaddingWriter) Write(buff []byte) (n int, err error) {
 	if p.cache.Len() > p.blockSize {
 		// 把超过一个分组长度的部分读取出来，写入到实际的out中
 		size := p.cache.Len() - p.blockSize
-		_, _ = p.cache.Read(p.swap[:size])
-		_, err = p.out.Write(p.swap[:size])
+		_, err = p.out.Write(p.cache.Next(size))
 		if err != nil {
 			return 0, err
 		}
@@ -144,6 +143,12 @@ func (p *PKCS7PaddingWriter) Final() error {
 	unpadding := int(b[length-1])
 	if unpadding > p.blockSize || unpadding == 0 {
 		return errors.New("非法的PKCS7填充")
+	}
+	for _, v := range b[(length - unpadding):] {
+		// 每一个填充字节都必须等于填充长度
+		if int(v) != unpadding {
+			return errors.New("非法的PKCS7填充")
+		}
 	}
 	_, err := p.out.Write(b[:(length - unpadding)])
 	return err
